@@ -99,7 +99,7 @@ def gen(rng, n):
 def run(res, tier, seed):
     rng = random.Random(seed)
     proof_ok = proof_stage(res, "Rva.Proofs.C17", THEOREMS)
-    lits = gen(rng, 1500 if tier == "quick" else 60000)
+    lits = gen(rng, 1500 if tier == "quick" else 600000)
     reqs = ["imm " + hx(l) for l in lits]
     dbg = run_lines_isolated(RVH_DEBUG, reqs, chunk=5000)
     rel = run_lines_isolated(RVH_RELEASE, reqs, chunk=5000)
